@@ -20,10 +20,10 @@ type c13Case struct {
 	Pattern string `json:"pattern"`
 	// List (optional): the pattern is configured together with these other patterns of the documented form
 	// (variants of it on the same host with other schemes and ports, and unrelated ones), in this order
-	List []string `json:"list,omitempty"`
-	Valid   bool   `json:"valid_by_construction"`
-	Defect  string `json:"defect,omitempty"`
-	Shape   string `json:"shape,omitempty"`
+	List   []string `json:"list,omitempty"`
+	Valid  bool     `json:"valid_by_construction"`
+	Defect string   `json:"defect,omitempty"`
+	Shape  string   `json:"shape,omitempty"`
 }
 
 const (
@@ -266,7 +266,9 @@ func allMaximaShape(rng *rand.Rand) c13Shape {
 // defects returns single-defect (by construction invalid) mutations of a valid shape.
 func defectsOf(rng *rand.Rand, s c13Shape) []c13Case {
 	var out []c13Case
-	add := func(defect, p string) { out = append(out, c13Case{Pattern: p, Valid: false, Defect: defect, Shape: s.String()}) }
+	add := func(defect, p string) {
+		out = append(out, c13Case{Pattern: p, Valid: false, Defect: defect, Shape: s.String()})
+	}
 	full := s.String()
 	hostPart := s.host
 	if s.subs {
@@ -473,6 +475,51 @@ func c13RunList(r *Run, l *Local, list []string) {
 	}
 }
 
+// c13RunCovered: the defective string d (derived from the valid shape s) stays rejected, with an error naming it, when it is
+// listed AFTER valid patterns that cover the origin it resembles: the same host with an arbitrary port, arbitrary subdomains
+// of the parent domain, both (lesson of seeded change C13-n: elements skipped as redundant before they are validated).
+func c13RunCovered(r *Run, l *Local, s c13Shape, d c13Case) {
+	var coverers []string
+	coverers = append(coverers, c13Shape{scheme: s.scheme, host: s.host, kind: s.kind, port: ":*", trailing: s.trailing}.String())
+	if s.kind == "domain" {
+		if i := strings.IndexByte(s.host, '.'); i > 0 && i+1 < len(s.host) && s.host[i+1:] != "." {
+			parent := s.host[i+1:]
+			coverers = append(coverers, s.scheme+"://*."+parent+":*", s.scheme+"://*."+parent+s.port)
+		}
+	}
+	for _, cov := range coverers {
+		if cov == d.Pattern {
+			continue
+		}
+		if _, err := origins.ParsePattern(cov); err != nil {
+			continue // the coverer itself must be acceptable (e.g. not for over-long parents)
+		}
+		list := []string{cov, d.Pattern}
+		l.curA = list
+		l.evals++
+		l.counters["defect_listed_after_a_covering_pattern"]++
+		cfg := cors.Config{Origins: list}
+		cfg.DangerouslyTolerateSubdomainsOfPublicSuffixes = true
+		cfg.DangerouslyTolerateInsecureOrigins = true
+		_, err := cors.NewMiddleware(cfg)
+		cs := c13Case{Pattern: d.Pattern, List: list, Defect: d.Defect}
+		if err == nil {
+			r.Violate("defect-accepted", "grammar/NewMiddleware", fmt.Sprintf("pattern with documented defect %q accepted when listed after %q: %q", d.Defect, cov, truncate(d.Pattern, 300)), cs)
+			return
+		}
+		named := false
+		for e := range cfgerrors.All(err) {
+			if ue, ok := e.(*cfgerrors.UnacceptableOriginPatternError); ok && ue != nil && ue.Value == d.Pattern {
+				named = true
+			}
+		}
+		if !named {
+			r.Violate("wrong-error-value", "grammar/error", fmt.Sprintf("defective pattern %q listed after %q: no UnacceptableOriginPatternError names it (%v)", truncate(d.Pattern, 300), cov, truncate(err.Error(), 300)), cs)
+			return
+		}
+	}
+}
+
 // c13Variants: the shape with other schemes and other ports on the same host
 func c13Variants(rng *rand.Rand, s c13Shape, n int) []c13Shape {
 	var out []c13Shape
@@ -519,14 +566,30 @@ func c13Variants(rng *rand.Rand, s c13Shape, n int) []c13Shape {
 func TestVerif_C13(t *testing.T) {
 	r := newRun(t, "C13")
 	r.Rule("valid side: grammar-based generator (scheme [a-z][a-z0-9+.-]{0,63} != file; LDH domains with every total length 1..253 and label lengths 1..63, valid A-labels, optional trailing dot; canonical dotted-quad; RFC 5952 IPv6 from an independent formatter; `*.` before domains <= 251 bytes; port none / canonical 1-65535 except the scheme default / `*`; all maxima at once), each accepted pattern without wildcard also presented verbatim as Origin; every fourth generated pattern also configured together with 1-6 variants of it on the same host (other schemes, other ports, `*.`) and 0-2 unrelated patterns in PRNG order, every wildcard-free member presented verbatim. " +
-		"invalid side: every documented defect applied to every generated valid shape (whitespace, path, query, fragment, userinfo, empty/zero/over-range/over-long/leading-zero/default/partial-wildcard port, file, null, upper-case or Unicode host, misplaced wildcard, wildcard before IP, non-canonical/zoned/IPv4-mapped/unbracketed IP, label > 63, domain > 253). " +
+		"invalid side: every documented defect applied to every generated valid shape, alone and (a third of them) listed after valid patterns that cover the origin it resembles (whitespace, path, query, fragment, userinfo, empty/zero/over-range/over-long/leading-zero/default/partial-wildcard port, file, null, upper-case or Unicode host, misplaced wildcard, wildcard before IP, non-canonical/zoned/IPv4-mapped/unbracketed IP, label > 63, domain > 253). " +
 		"non-trivial = every generated string (each is either a member of the documented language or carries a named defect); distinct by hash of the string")
 	r.Assume("grey zones are not generated: https with an IP host, `_`, hyphens in label positions 3-4, upper-case scheme, last label starting with a digit, `*.` + 251-byte base + trailing dot")
 
 	var rc c13Case
 	if r.LoadReplay(nil, &rc) {
 		l := r.newLocal(0)
-		if len(rc.List) > 0 {
+		if len(rc.List) > 0 && rc.Defect != "" {
+			cfg := cors.Config{Origins: rc.List}
+			cfg.DangerouslyTolerateSubdomainsOfPublicSuffixes, cfg.DangerouslyTolerateInsecureOrigins = true, true
+			if _, err := cors.NewMiddleware(cfg); err == nil {
+				r.Violate("defect-accepted", "grammar/NewMiddleware", fmt.Sprintf("pattern with documented defect %q accepted in list %q", rc.Defect, rc.List), rc)
+			} else {
+				named := false
+				for e := range cfgerrors.All(err) {
+					if ue, ok := e.(*cfgerrors.UnacceptableOriginPatternError); ok && ue != nil && ue.Value == rc.Pattern {
+						named = true
+					}
+				}
+				if !named {
+					r.Violate("wrong-error-value", "grammar/error", fmt.Sprintf("defective pattern %q in list %q: no error names it", rc.Pattern, rc.List), rc)
+				}
+			}
+		} else if len(rc.List) > 0 {
 			c13RunList(r, l, rc.List)
 		} else {
 			c13Run(r, l, rc)
@@ -669,6 +732,9 @@ func TestVerif_C13(t *testing.T) {
 			}
 			for j, d := range defectsOf(rng, s) {
 				c13Run(r, l, d)
+				if j%3 == i%3 { // ... and listed after valid patterns that would cover it if it were valid
+					c13RunCovered(r, l, s, d)
+				}
 				l.NontrivialKey(d.Pattern)
 				l.counters["defect_"+d.Defect]++
 				if l.Batch == 0 && i == 0 && j%9 == 0 {
